@@ -57,6 +57,6 @@ fn main(){
                 let mut rd=ShapeReader::with_shx(Cursor::new(shp),Cursor::new(shx)).unwrap(); let mut it=vec![]; let mut err=String::new(); for x in rd.iter_shapes().take(50){ match x {Ok(s)=>it.push(s.dump()),Err(e)=>{err=format!("{}",e);break;}} }
                 let n=rd.shape_count().unwrap(); let nth:Vec<String>=(0..n).map(|i| match rd.read_nth_shape(i){Some(Ok(s))=>s.dump(),_=>"null".into()}).collect();
                 writeln!(log,"{{\"file\":\"{}\",\"iter\":[{}],\"iter_err\":{:?},\"nth\":[{}],\"count\":{}}}",name,it.join(","),err,nth.join(","),n).unwrap(); } }
-        "c07m"=>probe8::c07m(a[2].parse().unwrap()), "c10"=>probe10::c10(a[2].parse().unwrap()), "c06"=>probe10::c06(a[2].parse().unwrap()), "c17e"=>probe10::c17e(), "c19"=>probe9::c19(a[2]=="full"), "c13"=>probe2::c13(a[2].parse().unwrap()), "c11"=>probe2::c11(a[2].parse().unwrap()), "c01"=>probe2::c01(a[2].parse().unwrap()), "c18"=>probe2::c18(a[2].parse().unwrap()),
+        "c07m"=>probe8::c07m(a[2].parse().unwrap()), "c10"=>probe10::c10(a[2].parse().unwrap()), "c06"=>probe10::c06(a[2].parse().unwrap()), "c17e"=>probe10::c17e(), "c01roles"=>probe10::c01roles(a[2].parse().unwrap()), "c19"=>probe9::c19(a[2]=="full"), "c13"=>probe2::c13(a[2].parse().unwrap()), "c11"=>probe2::c11(a[2].parse().unwrap()), "c01"=>probe2::c01(a[2].parse().unwrap()), "c18"=>probe2::c18(a[2].parse().unwrap()),
         _=>panic!("usage") }
 }
